@@ -377,7 +377,9 @@ theorem hunkLinePush_ps {cfg : Cfg} (ps : Preset cfg) {m m' : M} {l : L} (hh : i
   | none =>
     simp only [hc] at e
     cases e
-    refine ⟨⟨{ kind := .other, text := Text.expand cfg.tab l.raw, src := m.n }, ?_, rfl, Or.inl ?_⟩, by simp [Unif], rfl, by simp⟩
+    have hsd : stateDiffType m.st = .unified := by
+      cases hst : m.st <;> simp_all [isHunkState, stateDiffType, Unif]
+    refine ⟨⟨{ kind := .other, text := Text.expand cfg.tab l.raw, src := m.n }, ?_, rfl, Or.inl ?_⟩, by simp [Unif, hsd], rfl, by simp⟩
     · rw [timeline_of_flushed m]; simp [timeline]
     · simp [Text.expand, ps.tab0]
   | some p =>
